@@ -61,13 +61,13 @@ example : 3 < bitLen 13 := by decide +kernel
 /-! ## parsing -/
 
 /-- **General exactness of `strToBigInt`.** For a plain decimal string
-    `[sign] ip [ "." fp ]` (`ip`, `fp` digit strings, not both empty, at most 27
-    fraction digits) with digit value `N`, and `d` decimals: if
+    `[sign] ip [ "." fp ]` (`ip`, `fp` digit strings, not both empty, at most 248
+    fraction digits: as long as `pow5` is exact) with digit value `N`, and `d` decimals: if
     `N·10^(d-|fp|) < 2^510` then `strToBigInt` returns exactly `± ⌊N·10^d / 10^|fp|⌋`
     — no error, no binary rounding visible. -/
 theorem strToBigInt_plain_general (sg : Option Bool) (ip fp : Str) (dot : Bool) (d : Nat)
     (hip : allDig ip) (hfp : allDig fp) (hdot : dot = false → fp = []) (hne : ip ++ fp ≠ [])
-    (hf : fp.length ≤ 27)
+    (hf : fp.length ≤ 248)
     (hbound : Nat.ofDigitChars 10 (ip ++ fp) 0 * 10 ^ (d - fp.length) < 2 ^ 510) :
     strToBigInt (signStr sg ++ plainBody ip fp dot) (d : Int) =
       .ok (if signNeg sg then -((Nat.ofDigitChars 10 (ip ++ fp) 0 * 10 ^ d / 10 ^ fp.length : ℕ) : Int)
@@ -171,6 +171,46 @@ theorem roundtrip_word (n : Int) (h1 : -(2 ^ 256 : Int) < n) (h2 : n < 2 ^ 256) 
 
 example : StrToBigInt (BigIntToStr (2 ^ 256 - 1)) = .ok (2 ^ 256 - 1) := by decide +kernel
 
+/-- `BigIntToStrWithoutDot` (used by the VM's stake instructions before
+    `strconv.ParseUint`): the sign, then digits spelling `⌊|n| / 10^18⌋`. -/
+theorem nodot_value (n : Int) :
+    ∃ ds, allDig ds ∧ BigIntToStrWithoutDot n = (if n < 0 then ['-'] else []) ++ ds ∧
+      Nat.ofDigitChars 10 ds 0 = n.natAbs / 10 ^ 18 := by
+  unfold BigIntToStrWithoutDot BigIntToStr
+  by_cases h0 : n = 0
+  · subst h0
+    exact ⟨['0'], by decide, by decide, by decide⟩
+  · rw [if_neg h0]
+    obtain ⟨first, last, hs, hd1, hd2, hlen, hne, hdot, hval⟩ := bigIntToStr_shape n 18
+    have hs' : bigIntToStr n 18 = signStr (if n < 0 then some true else none) ++ plainBody first last (18 != 0) := hs
+    refine ⟨first, hd1, ?_, ?_⟩
+    · rw [hs']
+      have hsign : signStr (if n < 0 then some true else none) = (if n < 0 then ['-'] else []) := by
+        split <;> rfl
+      rw [hsign]
+      have hpre : ∀ c ∈ (if n < 0 then ['-'] else ([] : Str)) ++ first, (c != '.') = true := by
+        intro c hc
+        rcases List.mem_append.mp hc with h | h
+        · split at h
+          · simp at h; subst h; decide
+          · simp at h
+        · have := isDig_ne_dot (hd1 c h)
+          simpa using this
+      have : (if n < 0 then ['-'] else ([] : Str)) ++ plainBody first last (18 != 0)
+          = ((if n < 0 then ['-'] else ([] : Str)) ++ first) ++ '.' :: last := by
+        unfold plainBody; simp
+      rw [this, List.takeWhile_append_of_pos hpre]
+      simp
+    · have hsplit := digits_value_split first last
+      rw [hval, hlen] at hsplit
+      have hlast : Nat.ofDigitChars 10 last 0 < 10 ^ 18 := by
+        have := ofDigitChars_lt last hd2
+        rwa [hlen] at this
+      rw [hsplit]
+      rw [Nat.add_comm, Nat.add_mul_div_right _ _ (by positivity), Nat.div_eq_of_lt hlast, Nat.zero_add]
+
+example : BigIntToStrWithoutDot 1234567890123456789012 = "1234".toList := by decide +kernel
+
 /-! ## re-scaling between the ledger unit and a token unit -/
 
 /-- general form: ledger (18 decimals) → token with `d` decimals. -/
@@ -193,8 +233,8 @@ theorem erc20_general (n : Int) (d : Nat) (h : n.natAbs * 10 ^ (d - 18) < 2 ^ 51
     rw [this]
     by_cases hn : n < 0 <;> simp [hn, signNeg]
 
-/-- general form: token with `d ≤ 27` decimals → ledger (18 decimals). -/
-theorem rocket_general (n : Int) (d : Nat) (hd : d ≤ 27) (h : n.natAbs * 10 ^ (18 - d) < 2 ^ 510) :
+/-- general form: token with `d ≤ 248` decimals → ledger (18 decimals). -/
+theorem rocket_general (n : Int) (d : Nat) (hd : d ≤ 248) (h : n.natAbs * 10 ^ (18 - d) < 2 ^ 510) :
     formatRocket n d =
       .ok (if n < 0 then -((n.natAbs * 10 ^ 18 / 10 ^ d : ℕ) : Int) else ((n.natAbs * 10 ^ 18 / 10 ^ d : ℕ) : Int)) := by
   unfold formatRocket
@@ -287,6 +327,58 @@ theorem rocket_then_erc20 (m : Int) (d : Nat) (hd : d ≤ 18) (h : m.natAbs * 10
 
 example : (1234567 : Int).natAbs * 10 ^ (18 - 6) < 2 ^ 510 := by decide +kernel
 
+/-! ## token balances bound to an ERC-20 contract (accountdb_tuntun.go) -/
+
+/-- **At 18 decimals every balance operation is exact**: `SetFT` stores `n`, `GetFT`
+    returns what is stored, `AddFT` adds, `SubFT` subtracts (or refuses and reports the
+    balance) — no re-scaling loss anywhere (`0 ≤ n`, values below `2^510`). -/
+theorem ft_18_exact (bal : Nat) (n : Int) (hn : 0 ≤ n) (hb : bal < 2 ^ 509) (hn2 : n.natAbs < 2 ^ 509) :
+    ftSet 18 n = some n.natAbs ∧
+    ftGet 18 bal = .ok (bal : Int) ∧
+    ftAdd 18 bal n = some (bal + n.natAbs) ∧
+    ftSub 18 bal n = some (if (bal : Int) < n then (false, bal, .ok (bal : Int))
+                           else (true, bal - n.natAbs, .ok ((bal : Int) - n))) := by
+  have h510 : (2 : ℕ) ^ 509 < 2 ^ 510 := Nat.pow_lt_pow_right (by norm_num) (by norm_num)
+  have he := erc20_18_id n (by omega)
+  have hnn : (n.natAbs : Int) = n := by omega
+  refine ⟨?_, ?_, ?_, ?_⟩
+  · unfold ftSet; rw [he]
+  · unfold ftGet; exact rocket_18_id bal (by simp; omega)
+  · unfold ftAdd; rw [he]; simp only [Option.some.injEq]; omega
+  · unfold ftSub; rw [he]
+    by_cases hlt : (bal : Int) < n
+    · simp [hlt]
+    · simp only [hlt, if_false, Option.some.injEq, Prod.mk.injEq, true_and]
+      have hr : ((bal : Int) - n).natAbs < 2 ^ 510 := by omega
+      exact ⟨by omega, rocket_18_id _ hr⟩
+
+example : ftSet 18 5 = some 5 ∧ ftGet 18 5 = .ok 5 ∧ ftAdd 18 5 7 = some 12 ∧
+    ftSub 18 12 7 = some (true, 5, .ok 5) ∧ ftSub 18 5 7 = some (false, 5, .ok 5) := by decide +kernel
+
+/-- With `d ≤ 18` token decimals a balance written and read back comes back rounded
+    down to the token's granularity `10^(18-d)` — and never larger than what was written. -/
+theorem ft_set_get (n : Int) (d : Nat) (hn : 0 ≤ n) (hd : d ≤ 18) (h : n.natAbs < 2 ^ 510) :
+    ∃ b, ftSet d n = some b ∧ ftGet d b = .ok (n / 10 ^ (18 - d) * 10 ^ (18 - d)) := by
+  have he := erc20_floor n d hd h
+  have hK : (0 : Int) < 10 ^ (18 - d) := by positivity
+  have htd : n.tdiv (10 ^ (18 - d)) = n / 10 ^ (18 - d) := Int.tdiv_eq_ediv_of_nonneg hn
+  have hq0 : 0 ≤ n / 10 ^ (18 - d) := Int.ediv_nonneg hn (le_of_lt hK)
+  refine ⟨(n / 10 ^ (18 - d)).natAbs, ?_, ?_⟩
+  · unfold ftSet; rw [he, htd]
+  · unfold ftGet
+    have hcast : (((n / 10 ^ (18 - d)).natAbs : ℕ) : Int) = n / 10 ^ (18 - d) := by omega
+    rw [hcast]
+    apply rocket_scale _ d hd
+    -- (n / K) * K ≤ n < 2^510
+    have hle : n / 10 ^ (18 - d) * 10 ^ (18 - d) ≤ n := Int.ediv_mul_le n (ne_of_gt hK)
+    have hKn : ((10 ^ (18 - d) : ℕ) : Int) = (10 : Int) ^ (18 - d) := by push_cast; rfl
+    have : (((n / 10 ^ (18 - d)).natAbs * 10 ^ (18 - d) : ℕ) : Int) ≤ n := by
+      rw [Nat.cast_mul, hcast, hKn]; exact hle
+    omega
+
+example : ∃ b, ftSet 6 1234567890123456789012 = some b ∧ ftGet 6 b = .ok 1234567890000000000000 :=
+  ⟨1234567890, by decide +kernel⟩
+
 /-! ## the wrapped Ethereum transaction value path -/
 
 /-- **evm_value_unchanged.** `ConvertTx` (→ `BigIntToStr`) followed by
@@ -310,6 +402,9 @@ theorem strToBigInt_never_panics (s : Str) (d : Int) : strToBigInt s d ≠ .pani
 
 example : strToBigInt "1e1000000000".toList 18 = .ok 0 ∧ strToBigInt "1e-1000000000".toList 18 = .ok 0 := by
   decide +kernel
+
+/-- `pow5 n = 5^n` exactly for `n ≤ 248` (table, then a loop that never rounds). -/
+theorem pow5_exact_to_248 : ∀ n < 249, pow5 n = BF.fin false (5 ^ n) 0 := pow5_exact
 
 /-- `pow5` (the only place an infinity can arise next to the parsed mantissa) is
     always a positive finite float or `+Inf`. -/
